@@ -102,6 +102,23 @@ func (f *FBaseProcessor) Process(iprot, oprot *FProtocol) error {
 	ex := thrift.NewTApplicationException(APPLICATION_EXCEPTION_UNKNOWN_METHOD, "Unknown function "+shown)
 	f.writeMu.Lock()
 	defer f.writeMu.Unlock()
+	werr := writeException(ctx, fctx, oprot, name, ex)
+	if werr != nil && IsErrTooLarge(werr) {
+		// The name is so long that not even this reply fits the output
+		// limit: say so under the shortened name rather than leaving the
+		// caller without any reply.
+		if r, ok := oprot.TProtocol.(interface{ Reset() }); ok {
+			r.Reset()
+		}
+		tooLarge := thrift.NewTApplicationException(APPLICATION_EXCEPTION_RESPONSE_TOO_LARGE,
+			"response too large: Unknown function "+shown)
+		werr = writeException(ctx, fctx, oprot, shown, tooLarge)
+	}
+	return werr
+}
+
+// writeException writes an application exception reply for the named method.
+func writeException(ctx context.Context, fctx FContext, oprot *FProtocol, name string, ex thrift.TApplicationException) error {
 	if err := oprot.WriteResponseHeader(fctx); err != nil {
 		return err
 	}
@@ -114,10 +131,7 @@ func (f *FBaseProcessor) Process(iprot, oprot *FProtocol) error {
 	if err := oprot.WriteMessageEnd(ctx); err != nil {
 		return err
 	}
-	if err := oprot.Flush(ctx); err != nil {
-		return err
-	}
-	return nil
+	return oprot.Flush(ctx)
 }
 
 // AddMiddleware adds the given ServiceMiddleware to the FProcessor. This
